@@ -78,15 +78,19 @@ class MethodMixin:
         for nm_ in ('basename', 'dirname', 'normpath', 'abspath', 'realpath'):
             reg(getattr(os.path, nm_), lambda a, k, n, f, nm_=nm_: getattr(os.path, nm_)(*a) if not is_sym(a[0]) else self.ufun('py_path_' + nm_, STR, STR)(a[0]))
         reg(os.remove, lambda a, k, n, f: self.path.trace.append(('os.remove', a[0])))
+        import shutil as _shutil
+        reg(_shutil.copymode, lambda a, k, n, f: self.path.trace.append(('shutil.copymode', a[0], a[1])))
         reg(os.rename, lambda a, k, n, f: self.path.trace.append(('os.rename', a[0], a[1])))
         reg(os.makedirs, lambda a, k, n, f: self.path.trace.append(('os.makedirs', a[0])))
         reg(os.path.isabs, lambda a, k, n, f: os.path.isabs(a[0]) if not is_sym(a[0]) else self.ufun('py_isabs', STR, z3.BoolSort())(a[0]))
         for nm in ('match', 'fullmatch', 'search'):
             reg(getattr(_re, nm), lambda a, k, n, f, nm=nm: self.m_pattern(a[0] if isinstance(a[0], _re.Pattern) else _re.compile(a[0], *a[2:]), nm, [a[1]], n) if is_sym(a[1]) else getattr(_re, nm)(*a))
         reg(_re.sub, self.b_re_sub)
+        import shlex as _shlex
+        reg(_shlex.quote, lambda a, k, n, f: _shlex.quote(a[0]) if not is_sym(a[0]) else self.ufun('py_shlex_quote', STR, STR)(self.zs.lift(a[0], STR)))
         reg(api.unit, lambda a, k, n, f: (a[0],))
         names_ = self.contract_names_for(None, None)
-        for nm_ in ('re_match', 're_group', 're_group_none', 'emptyset', 'rangeset', 'setadd', 'rev'):
+        for nm_ in ('re_match', 're_group', 're_group_none', 'emptyset', 'rangeset', 'setadd', 'rev', 'shlex_quote'):
             reg(getattr(api, nm_), names_[nm_].fn)
         reg(api.implies, lambda a, k, n, f: self.lor(self.lnot(self.truth(a[0])), self.truth(a[1])))
 
@@ -439,7 +443,8 @@ class MethodMixin:
             ex = self.ufun('fs_exists', STR, z3.BoolSort())(path)
             if not self.path.branch(ex):
                 raise PyRaise(FileNotFoundError, (), n)
-        self.path.trace.append(('open', path, mode))
+        from .exprs import Event
+        self.path.trace.append(Event(('open', path, mode), {k_: v_ for k_, v_ in k.items() if k_ != 'mode'}))
         return VFile(path, mode)
 
     def b_super(self, a, k, n, f):
@@ -502,6 +507,10 @@ class MethodMixin:
         if isinstance(recv, VFile):
             if name == 'read':
                 return self.ufun('fs_content', STR, STR)(recv.path)
+            if name == 'readlines' and not args:
+                # the lines of the file as the text layer cuts them (a function of the path at the time of the call)
+                self.assumptions.add('file.readlines() is the function fs_lines of the path (the content cut into lines by the text layer, as configured by open(newline=...))')
+                return VBox('list', self.ufun('fs_lines', STR, z3.SeqSort(STR))(recv.path), api.Str)
             if name in ('write', 'writelines'):
                 self.path.trace.append(('file.' + name, recv.path, args[0] if args else None))
                 return None
@@ -822,6 +831,14 @@ class MethodMixin:
                 return None
             if name == 'copy':
                 return VBox('set', t, recv.esort)
+            if name == 'update' and len(args) == 1:
+                o = args[0]
+                ot = o.term if isinstance(o, VBox) and o.kind == 'set' else (o if z3.is_expr(o) else None)
+                if isinstance(o, VBox) and o.kind == 'set' and o.term is None:
+                    return None             # update with the empty set
+                if ot is not None and ot.sort() == t.sort():
+                    recv.term = z3.SetUnion(t, ot)
+                    return None
             raise Unsupported(f'set.{name}')
         es = t.sort().basis()
         n = z3.Length(t)
